@@ -14,6 +14,7 @@ echo "== demo WITH change"; /venv/bin/python -m pytest -q -p no:cacheprovider "$
 if [ "${SKIP_SUITE:-0}" != 1 ]; then echo "== full suite WITH change"; /venv/bin/python -m pytest -q -p no:cacheprovider -x 2>&1 | tail -1; fi
 cd /verif; unset PYTHONPATH
 git -C /repo worktree remove --force "$WT"
+[ "${NOAPPLY:-0}" = 1 ] && exit 0
 git -C /repo apply "$SD/patch.diff" || exit 2
 for c in $CHECKS; do echo "== check $c on the seeded tree"; ./check $c --tier ${TIER:-quick} 2>&1 | grep -E "VIOLATION|INCONCLUSIVE|KNOWN|exit=" | cut -c1-400 | head -8; done
 git -C /repo checkout -- .
